@@ -22,6 +22,7 @@ def run(repo, report, tier):
     report.rule("C15.R5", "a demultiplexer is the only consuming step on its builder paths, excludes --discard-trimmed, and is wired to its own options", "a read is written twice or a template reaches the wrong parameter")
     report.guard("C15.R1", "_open_writers", r1_writers, repo, report)
     report.guard("C15.R1", "descriptor limit", r1_descriptor_limit, repo, report)
+    report.guard("C15.R1", "reserved file name", r1_reserved_name, repo, report)
     report.guard("C15.R2", "demultiplexer __call__", r2_routing, repo, report)
     report.guard("C15.R3", "determine_demultiplex_mode", r3_mode, repo, report)
     report.guard("C15.R4", "accounting", r4_accounting, repo, report)
@@ -329,3 +330,29 @@ def r1_descriptor_limit(repo, report):
     c, fo = repo.need_method("FileOpener", "xopen")
     used = [x for x in calls(fo) if chain(x.func) == "open_raise_limit"]
     report.ob("C15.R1", "FileOpener.xopen opens through open_raise_limit", len(used) == 1, facts={"calls": [src(x)[:80] for x in used]}, expected="open_raise_limit(xopen.xopen, path, mode, ...)", loc=repo.loc(fo))
+
+
+def r1_reserved_name(repo, report):
+    """The demultiplexers write reads without adapter to <template with 'unknown'>.  An adapter named 'unknown' would
+    get the same file: two writers on one file, one group of reads lost.  The builder must refuse that name before it
+    constructs a demultiplexer (for {name1}/{name2} also among the R2 adapters)."""
+    m = repo.func("cli", "make_pipeline_from_args")
+    ctor = {}
+    for x in ast.walk(m):
+        if isinstance(x, ast.Call) and chain(x.func) in ("Demultiplexer", "PairedDemultiplexer", "CombinatorialDemultiplexer") and x.args:
+            ctor[chain(x.func)] = x
+    if len(ctor) != 3:
+        raise Unrecognised(f"make_pipeline_from_args: demultiplexer constructions found: {sorted(ctor)}", repo.loc(m))
+    n1 = {chain(c_.args[0]) for c_ in ctor.values()}
+    n2 = chain(ctor["CombinatorialDemultiplexer"].args[1]) if len(ctor["CombinatorialDemultiplexer"].args) > 1 else None
+    first = min(c_.lineno for c_ in ctor.values())
+    guards = []
+    for x in ast.walk(m):
+        if isinstance(x, ast.If) and x.lineno < first and any(isinstance(r_, ast.Raise) and r_.exc is not None and "CommandLineError" in src(r_.exc) for r_ in x.body):
+            if any(isinstance(k, ast.Constant) and k.value == "unknown" for k in ast.walk(x.test)):
+                names = {k.id for k in ast.walk(x.test) if isinstance(k, ast.Name)}
+                guards.append({"test": src(x.test)[:160], "covers_r1": bool(n1 & names) and len(n1) == 1, "covers_r2": n2 in names})
+    ok = any(g["covers_r1"] and g["covers_r2"] for g in guards)
+    report.ob("C15.R1", "builder refuses the adapter name 'unknown' when demultiplexing", ok, facts={"guards": guards[:2], "names_r1": sorted(n1), "names_r2": n2}, loc=repo.loc(m),
+              expected="if <demultiplexing> and 'unknown' in <adapter names (R2 names too for {name1}/{name2})>: raise CommandLineError(...) before a demultiplexer is built",
+              why="" if ok else "an adapter named 'unknown' shares the output file of the reads without adapter: the file is opened twice and one of the two groups is lost, although the report counts all reads as written")
